@@ -50,7 +50,7 @@ VARIABLES store,      \* server table: Seq of objects, id = index
           known,      \* ids a client may use (references travel between clients by pickling)
           pend,       \* [Clients -> request or NoReq]
           resp,       \* [Clients -> response or NoResp]   (set by Handle, consumed by Ret)
-          shut,       \* "up" | "shutting" | "stopped"
+          shut,       \* "up" | "shutting" | "stopped" | "restarted" (serving again, like "up")
           calls,      \* number of requests issued
           gate,       \* BOOLEAN: gboom evaluations may finish
           hshut,      \* [Clients -> server phase when the pending request was handled] (history)
@@ -135,6 +135,11 @@ Shutdown == /\ AllowShutdown /\ shut = "up" /\ shut' = "shutting"
             /\ UNCHANGED <<store, known, pend, resp, calls, gate, hshut, hist>>
 Stop     == /\ shut = "shutting" /\ shut' = "stopped"
             /\ UNCHANGED <<store, known, pend, resp, calls, gate, hshut, hist>>
+\* start() on the same server object after a stop: it serves again like a fresh one (build_server resets the
+\* shutdown flag, courier_server.py:262-269); the object table is the process-wide lazy-object cache and survives
+Restart  == /\ AllowShutdown /\ shut = "stopped" /\ \A c \in Clients : pend[c] = NoReq
+            /\ shut' = "restarted"
+            /\ UNCHANGED <<store, known, pend, resp, calls, gate, hshut, hist>>
 
 OpenGate == /\ ~gate /\ gate' = TRUE
             /\ UNCHANGED <<store, known, pend, resp, shut, calls, hshut, hist>>
@@ -142,7 +147,7 @@ OpenGate == /\ ~gate /\ gate' = TRUE
 Next == \/ \E c \in Clients : \/ \E kind \in Kinds : CallNew(c, kind)
                               \/ \E id \in 1..MaxObjs, op \in AllOps \cup {"nope"} : CallOp(c, id, op)
                               \/ Handle(c) \/ GiveUp(c) \/ Ret(c)
-        \/ Shutdown \/ Stop \/ OpenGate
+        \/ Shutdown \/ Stop \/ Restart \/ OpenGate
 Fair == WF_vars(OpenGate) /\ \A c \in Clients : WF_vars(Handle(c)) /\ WF_vars(GiveUp(c)) /\ WF_vars(Ret(c))
 Spec == Init /\ [][Next]_vars /\ Fair
 
